@@ -208,7 +208,13 @@ KwTag(S, n) ==
         ad == S.addl[n]
     IN  IF ad = <<"-">> THEN base ELSE [d \in Dests |-> IF d = ad[1] THEN Max2(base[d], ad[2]) ELSE base[d]]
 
-PlanAt(n, k) == LET pl == G.plan[n] IN pl[IF k > Len(pl) THEN Len(pl) ELSE k]
+(* the plan may depend on the epoch: the largest re-iteration index visible in the arguments *)
+PlanAtE(n, k, tag) ==
+    LET byit == G.plan_it[n]
+        eps == {tag[d] : d \in Dests}
+        ep == IF eps = {} THEN 0 ELSE CHOOSE x \in eps : \A y \in eps : y <= x
+        pl == IF Len(byit) = 0 THEN G.plan[n] ELSE byit[IF ep + 1 > Len(byit) THEN Len(byit) ELSE ep + 1]
+    IN  pl[IF k > Len(pl) THEN Len(pl) ELSE k]
 
 (***************************************************************************)
 (* The interpreter.  Exec(S, t) runs task t from its current pc until it    *)
@@ -304,8 +310,8 @@ BodyDone(S, t) ==
     LET f == Top(S, t)
         n == f.n
         a == A(n)
-        o == PlanAt(n, f.k)
         tag == KwTag(S, n)
+        o == PlanAtE(n, f.k, tag)
         req == G.recreq[n]
         S0 == [S EXCEPT !.ends = Append(@, <<n, f.k>>)]
         ok(r) == CollabThen(SetTop(S0, t, [f EXCEPT !.result = r]), t, "ev", "ecomp")    \* emit node_complete(None)
@@ -501,7 +507,8 @@ Exec(S, t) ==
               [] f.pc = "q2" ->
                    (* back from _run_dag(recurrent_subgraph) *)
                    LET r == S.tasks[t].ret
-                   IN  IF SubErr(S, S.dags[f.sub]) THEN Continue(Ret(S, t, <<"none">>), t)      \* marker is kept
+                   IN  IF SubErr(S, S.dags[f.sub])
+                       THEN Continue(Ret(NotifyDesc(S, f.n), t, <<"none">>), t)    \* marker is kept; wake whoever waits for n
                        ELSE IF ~(r # <<"none">> /\ IsRec(r))
                             THEN Exec(SetPc(S, t, "q4"), t)
                             ELSE RecLoop(SetTop(S, t, [f EXCEPT !.iter = @ + 1, !.data = r[3], !.pc = "q1"]), t)
